@@ -30,13 +30,55 @@ import (
 	"encoding/json"
 	"fmt"
 	"os"
+	"sort"
 	"strings"
+	"sync"
 
 	"github.com/blinklabs-io/gouroboros/ledger/common"
 	"verif/vlib"
 )
 
 var c *vlib.Check
+
+// W is one work item. Violations are buffered and reported after the parallel phase in
+// work-item order, so that the example recorded for a key does not depend on scheduling.
+type W struct{ idx, seq int }
+
+type pend struct {
+	idx, seq  int
+	key, what string
+	replay    any
+}
+
+var (
+	pendMu  sync.Mutex
+	pending = map[string]pend{}
+)
+
+func (w *W) violation(key, what string, replay any) {
+	w.seq++
+	pendMu.Lock()
+	if p, ok := pending[key]; !ok || w.idx < p.idx || (w.idx == p.idx && w.seq < p.seq) {
+		pending[key] = pend{w.idx, w.seq, key, what, replay}
+	}
+	pendMu.Unlock()
+}
+
+func flushViolations() {
+	var l []pend
+	for _, p := range pending {
+		l = append(l, p)
+	}
+	sort.Slice(l, func(i, j int) bool {
+		if l[i].idx != l[j].idx {
+			return l[i].idx < l[j].idx
+		}
+		return l[i].seq < l[j].seq
+	})
+	for _, p := range l {
+		c.Violation(p.key, p.what, p.replay)
+	}
+}
 
 // historical mainnet trailers (cardano-ledger issue 2729; the TRAILING_WHITELIST of
 // cardano-multiplatform-lib). Only used to give this input class its own violation key.
@@ -101,9 +143,9 @@ func hx(b []byte) string { return hex.EncodeToString(b) }
 
 // checkAccepted compares an accepted address with the reference fields; raw are the
 // address bytes the reference decoded. Returns the outcome label.
-func checkAccepted(a common.Address, r refAddr, raw []byte, replay map[string]any) string {
+func (w *W) checkAccepted(a common.Address, r refAddr, raw []byte, replay map[string]any) string {
 	bad := func(key, what string) string {
-		c.Violation(key, what, replay)
+		w.violation(key, what, replay)
 		return "mismatch"
 	}
 	tcls := fmt.Sprintf("type=%d", r.typ)
@@ -221,7 +263,7 @@ func acceptsKey(r refAddr) string {
 }
 
 // checkBytes runs one raw byte string through NewAddressFromBytes. class = evidence class.
-func checkBytes(class string, raw []byte) {
+func (w *W) checkBytes(class string, raw []byte) {
 	r := refDecode(raw)
 	g := callBytes(raw)
 	replay := map[string]any{"kind": "bytes", "hex": hx(raw), "reference": r.String()}
@@ -229,7 +271,7 @@ func checkBytes(class string, raw []byte) {
 	var outcome string
 	switch {
 	case g.panic != nil && r.verdict != vOutside:
-		c.Violation("bytes|panic|"+r.why, fmt.Sprintf("NewAddressFromBytes(%x) panics: %v", raw, g.panic), replay)
+		w.violation("bytes|panic|"+r.why, fmt.Sprintf("NewAddressFromBytes(%x) panics: %v", raw, g.panic), replay)
 		outcome = "panic"
 	case g.panic != nil:
 		outcome = "outside:" + r.why + ":panic"
@@ -237,22 +279,22 @@ func checkBytes(class string, raw []byte) {
 		outcome = fmt.Sprintf("outside:%s:accepted=%v", r.why, accepted)
 	case r.verdict == vReject && accepted:
 		gb, _ := g.addr.Bytes()
-		c.Violation(acceptsKey(r), fmt.Sprintf("NewAddressFromBytes(%x) is accepted (reference: %s); Bytes() of the result = %x", raw, r, gb), replay)
+		w.violation(acceptsKey(r), fmt.Sprintf("NewAddressFromBytes(%x) is accepted (reference: %s); Bytes() of the result = %x", raw, r, gb), replay)
 		outcome = "wrongly-accepted:" + r.why
 	case r.verdict == vReject:
 		outcome = "reject:" + r.why
 	case !accepted:
-		c.Violation(fmt.Sprintf("bytes|rejects-valid|type=%d", r.typ), fmt.Sprintf("NewAddressFromBytes(%x) fails with %v (reference: %s)", raw, g.err, r), replay)
+		w.violation(fmt.Sprintf("bytes|rejects-valid|type=%d", r.typ), fmt.Sprintf("NewAddressFromBytes(%x) fails with %v (reference: %s)", raw, g.err, r), replay)
 		outcome = "wrongly-rejected"
 	default:
-		outcome = checkAccepted(g.addr, r, raw, replay)
+		outcome = w.checkAccepted(g.addr, r, raw, replay)
 	}
 	c.Eval(class, outcome)
 }
 
 // checkText runs one string through NewAddress. mut names the generator (used in the key
 // only for strings that are no address text at all).
-func checkText(class, mut, s string) {
+func (w *W) checkText(class, mut, s string) {
 	r := refParseText(s)
 	g := callText(s)
 	replay := map[string]any{"kind": "text", "text": s, "mut": mut, "reference": r.refAddr.String()}
@@ -260,7 +302,7 @@ func checkText(class, mut, s string) {
 	var outcome string
 	switch {
 	case g.panic != nil && r.verdict != vOutside:
-		c.Violation("text|panic|"+r.why, fmt.Sprintf("NewAddress(%q) panics: %v", s, g.panic), replay)
+		w.violation("text|panic|"+r.why, fmt.Sprintf("NewAddress(%q) panics: %v", s, g.panic), replay)
 		outcome = "panic"
 	case g.panic != nil:
 		outcome = "outside:" + r.why + ":panic"
@@ -280,7 +322,7 @@ func checkText(class, mut, s string) {
 		case r.why == "neither-bech32-nor-base58":
 			key = "text|accepts|not-an-address-text|" + mut
 		}
-		c.Violation(key, fmt.Sprintf("NewAddress(%q) is accepted (reference: %s); result Bytes()=%x String()=%q", s, r.refAddr, gb, g.addr.String()), replay)
+		w.violation(key, fmt.Sprintf("NewAddress(%q) is accepted (reference: %s); result Bytes()=%x String()=%q", s, r.refAddr, gb, g.addr.String()), replay)
 		outcome = "wrongly-accepted:" + r.why
 	case r.verdict == vReject:
 		outcome = "reject:" + r.why
@@ -290,21 +332,21 @@ func checkText(class, mut, s string) {
 			outcome = "uppercase-valid-rejected"
 			break
 		}
-		c.Violation(fmt.Sprintf("text|rejects-valid|type=%d", r.typ), fmt.Sprintf("NewAddress(%q) fails with %v (reference: %s)", s, g.err, r.refAddr), replay)
+		w.violation(fmt.Sprintf("text|rejects-valid|type=%d", r.typ), fmt.Sprintf("NewAddress(%q) fails with %v (reference: %s)", s, g.err, r.refAddr), replay)
 		outcome = "wrongly-rejected"
 	default:
 		gb, _ := g.addr.Bytes()
 		if !bytes.Equal(gb, r.bytes) {
-			c.Violation(fmt.Sprintf("text|bytes≠text-payload|type=%d", r.typ), fmt.Sprintf("NewAddress(%q).Bytes()=%x, the text carries %x", s, gb, r.bytes), replay)
+			w.violation(fmt.Sprintf("text|bytes≠text-payload|type=%d", r.typ), fmt.Sprintf("NewAddress(%q).Bytes()=%x, the text carries %x", s, gb, r.bytes), replay)
 			outcome = "mismatch"
 			break
 		}
 		if st := g.addr.String(); st != r.canon {
-			c.Violation(fmt.Sprintf("text|String≠canonical-text|type=%d", r.typ), fmt.Sprintf("NewAddress(%q).String()=%q, canonical %q", s, st, r.canon), replay)
+			w.violation(fmt.Sprintf("text|String≠canonical-text|type=%d", r.typ), fmt.Sprintf("NewAddress(%q).String()=%q, canonical %q", s, st, r.canon), replay)
 			outcome = "mismatch"
 			break
 		}
-		outcome = checkAccepted(g.addr, r.refAddr, r.bytes, replay)
+		outcome = w.checkAccepted(g.addr, r.refAddr, r.bytes, replay)
 	}
 	c.Eval(class, outcome)
 }
@@ -350,15 +392,15 @@ type rep struct {
 }
 
 // textChecks: the byte string under every prefix and text variant.
-func textChecks(class string, raw []byte) {
+func (w *W) textChecks(class string, raw []byte) {
 	d5 := to5(raw)
 	for _, h := range append(hrps, "pool") {
 		s := b32encode(h, d5, bech32Const)
-		checkText(class+"|hrp="+h, "hrp-sweep", s)
-		checkText(class+"|HRP="+h, "hrp-sweep-upper", strings.ToUpper(s))
-		checkText(class+"|bech32m|hrp="+h, "bech32m-constant", b32encode(h, d5, bech32mConst))
+		w.checkText(class+"|hrp="+h, "hrp-sweep", s)
+		w.checkText(class+"|HRP="+h, "hrp-sweep-upper", strings.ToUpper(s))
+		w.checkText(class+"|bech32m|hrp="+h, "bech32m-constant", b32encode(h, d5, bech32mConst))
 	}
-	checkText(class+"|base58", "base58-of-bytes", b58encode(raw))
+	w.checkText(class+"|base58", "base58-of-bytes", b58encode(raw))
 }
 
 func selfTest() {
@@ -426,15 +468,17 @@ func replayOne(path string) {
 	if err := json.Unmarshal(b, &f); err != nil {
 		c.Internal("replay: %v", err)
 	}
+	w := &W{}
 	switch f.Replay.Kind {
 	case "bytes":
 		raw, _ := hex.DecodeString(f.Replay.Hex)
-		checkBytes("replay", raw)
+		w.checkBytes("replay", raw)
 	case "text":
-		checkText("replay", f.Replay.Mut, f.Replay.Text)
+		w.checkText("replay", f.Replay.Mut, f.Replay.Text)
 	default:
 		c.Internal("replay: unknown kind %q", f.Replay.Kind)
 	}
+	flushViolations()
 	c.NotExhaustive("replay of a single case")
 	c.Finish()
 }
@@ -449,8 +493,8 @@ func main() {
 	hashes := [][]byte{hA, hB}
 	hname := []string{"A", "B"}
 
-	var work []func()
-	add := func(f func()) { work = append(work, f) }
+	var work []func(w *W)
+	add := func(f func(w *W)) { work = append(work, f) }
 
 	// ---- S1: valid Shelley-family addresses + their texts
 	var reps []rep
@@ -463,7 +507,7 @@ func main() {
 					for si, s := range hashes {
 						raw := shelley(t, n, p, s, nil)
 						cls := fmt.Sprintf("S1|type=%d|net=%d|pay=%s|stake=%s", t, n, hname[pi], hname[si])
-						add(func() { checkBytes(cls, raw); textChecks(cls, raw) })
+						add(func(w *W) { w.checkBytes(cls, raw); w.textChecks(cls, raw) })
 						if pi == 0 && si == 1 {
 							reps = append(reps, rep{fmt.Sprintf("type=%d|net=%d", t, n), raw, 0})
 						}
@@ -472,14 +516,14 @@ func main() {
 			case t == 4 || t == 5:
 				for pi, p := range hashes {
 					pi, p := pi, p
-					add(func() {
+					add(func(w *W) {
 						for _, a := range ptrVals {
 							for _, b := range ptrVals {
 								for _, cc := range ptrVals {
 									raw := shelley(t, n, p, nil, &[3]uint64{a, b, cc})
 									cls := fmt.Sprintf("S1|type=%d|net=%d|pay=%s|ptr=%d,%d,%d", t, n, hname[pi], a, b, cc)
-									checkBytes(cls, raw)
-									textChecks(cls, raw)
+									w.checkBytes(cls, raw)
+									w.textChecks(cls, raw)
 								}
 							}
 						}
@@ -493,7 +537,7 @@ func main() {
 				for hi, h := range hashes {
 					raw := shelley(t, n, h, h, nil)
 					cls := fmt.Sprintf("S1|type=%d|net=%d|hash=%s", t, n, hname[hi])
-					add(func() { checkBytes(cls, raw); textChecks(cls, raw) })
+					add(func(w *W) { w.checkBytes(cls, raw); w.textChecks(cls, raw) })
 					if hi == 0 {
 						reps = append(reps, rep{fmt.Sprintf("type=%d|net=%d", t, n), raw, 0})
 					}
@@ -509,15 +553,15 @@ func main() {
 	}
 	for hdr := 0; hdr < 256; hdr++ {
 		hdr := hdr
-		add(func() {
+		add(func(w *W) {
 			for _, L := range []int{0, 27, 28, 29, 56, 57, 58} {
 				for fi, f := range fillers {
 					raw := append([]byte{byte(hdr)}, f[:L]...)
 					cls := fmt.Sprintf("S2|hdr=%02x|len=%d|filler=%d", hdr, L, fi)
-					checkBytes(cls, raw)
+					w.checkBytes(cls, raw)
 					d5 := to5(raw)
 					for _, h := range hrps {
-						checkText(cls+"|hrp="+h, "hrp-sweep", b32encode(h, d5, bech32Const))
+						w.checkText(cls+"|hrp="+h, "hrp-sweep", b32encode(h, d5, bech32Const))
 					}
 				}
 			}
@@ -527,48 +571,48 @@ func main() {
 	// ---- S3: prefixes and trailers of the representatives
 	for _, r := range reps {
 		r := r
-		add(func() {
+		add(func(w *W) {
 			for k := 0; k < len(r.raw); k++ {
-				checkBytes(fmt.Sprintf("S3|%s|prefix=%d", r.name, k), r.raw[:k])
+				w.checkBytes(fmt.Sprintf("S3|%s|prefix=%d", r.name, k), r.raw[:k])
 			}
 			for v := 0; v < 256; v++ {
 				raw := append(append([]byte{}, r.raw...), byte(v))
 				cls := fmt.Sprintf("S3|%s|trailer=%02x", r.name, v)
-				checkBytes(cls, raw)
-				checkText(cls+"|text", "hrp-sweep", b32encode(expectedHRP(r.raw[0]>>4, r.raw[0]&15), to5(raw), bech32Const))
+				w.checkBytes(cls, raw)
+				w.checkText(cls+"|text", "hrp-sweep", b32encode(expectedHRP(r.raw[0]>>4, r.raw[0]&15), to5(raw), bech32Const))
 			}
 			for i, tr := range historicalTrailers {
 				raw := append(append([]byte{}, r.raw...), tr...)
-				checkBytes(fmt.Sprintf("S3|%s|historical-trailer#%d", r.name, i), raw)
+				w.checkBytes(fmt.Sprintf("S3|%s|historical-trailer#%d", r.name, i), raw)
 			}
 		})
 	}
 
 	// ---- S4: single-byte substitutions of the representatives
-	subst := func(class string, raw []byte, from, to int) {
+	subst := func(w *W, class string, raw []byte, from, to int) {
 		m := make([]byte, len(raw))
 		for pos := from; pos < to; pos++ {
 			for v := 1; v < 256; v++ {
 				copy(m, raw)
 				m[pos] ^= byte(v)
-				checkBytes(fmt.Sprintf("%s|pos=%d", class, pos), m)
+				w.checkBytes(fmt.Sprintf("%s|pos=%d", class, pos), m)
 			}
 		}
 	}
 	for _, r := range reps {
 		r := r
-		add(func() { subst("S4|"+r.name, r.raw, 0, len(r.raw)) })
+		add(func(w *W) { subst(w, "S4|"+r.name, r.raw, 0, len(r.raw)) })
 	}
 	if c.Thorough() {
 		for _, t := range []uint8{4, 5} {
 			for n := uint8(0); n <= 1; n++ {
 				for _, a := range ptrVals {
 					t, n, a := t, n, a
-					add(func() {
+					add(func(w *W) {
 						for _, b := range ptrVals {
 							for _, cc := range ptrVals {
 								raw := shelley(t, n, hA, nil, &[3]uint64{a, b, cc})
-								subst(fmt.Sprintf("S4|type=%d|net=%d|ptr=%d,%d,%d", t, n, a, b, cc), raw, 29, len(raw))
+								subst(w, fmt.Sprintf("S4|type=%d|net=%d|ptr=%d,%d,%d", t, n, a, b, cc), raw, 29, len(raw))
 							}
 						}
 					})
@@ -578,18 +622,18 @@ func main() {
 	}
 
 	// ---- S5: text mutations of the representatives
-	textMut := func(name, s, alphabet string) {
+	textMut := func(w *W, name, s, alphabet string) {
 		for pos := 0; pos < len(s); pos++ {
 			for i := 0; i < len(alphabet); i++ {
 				if alphabet[i] == s[pos] {
 					continue
 				}
-				checkText(fmt.Sprintf("S5|%s|subst@%d", name, pos), "single-char-substitution", s[:pos]+string(alphabet[i])+s[pos+1:])
+				w.checkText(fmt.Sprintf("S5|%s|subst@%d", name, pos), "single-char-substitution", s[:pos]+string(alphabet[i])+s[pos+1:])
 			}
 			if up := strings.ToUpper(s[pos : pos+1]); up != s[pos:pos+1] {
-				checkText(fmt.Sprintf("S5|%s|upper@%d", name, pos), "single-char-case-flip", s[:pos]+up+s[pos+1:])
+				w.checkText(fmt.Sprintf("S5|%s|upper@%d", name, pos), "single-char-case-flip", s[:pos]+up+s[pos+1:])
 			}
-			checkText(fmt.Sprintf("S5|%s|delete@%d", name, pos), "single-char-deletion", s[:pos]+s[pos+1:])
+			w.checkText(fmt.Sprintf("S5|%s|delete@%d", name, pos), "single-char-deletion", s[:pos]+s[pos+1:])
 		}
 	}
 	for i, r := range reps {
@@ -597,19 +641,19 @@ func main() {
 			continue // quick: one pointer representative per (type, net)
 		}
 		r := r
-		add(func() {
+		add(func(w *W) {
 			hrp := expectedHRP(r.raw[0]>>4, r.raw[0]&15)
 			d5 := to5(r.raw)
-			textMut(r.name, b32encode(hrp, d5, bech32Const), b32chars+"1bio")
+			textMut(w, r.name, b32encode(hrp, d5, bech32Const), b32chars+"1bio")
 			// padding: bits beyond the last full byte set to every non-zero value; one excess group
 			padBits := uint(len(d5)*5 - len(r.raw)*8)
 			for v := byte(1); v < 1<<padBits; v++ {
 				d := append([]byte{}, d5...)
 				d[len(d)-1] |= v
-				checkText(fmt.Sprintf("S5|%s|padding=%d", r.name, v), "nonzero-padding", b32encode(hrp, d, bech32Const))
+				w.checkText(fmt.Sprintf("S5|%s|padding=%d", r.name, v), "nonzero-padding", b32encode(hrp, d, bech32Const))
 			}
-			checkText(fmt.Sprintf("S5|%s|excess-group", r.name), "excess-padding-group", b32encode(hrp, append(append([]byte{}, d5...), 0), bech32Const))
-			checkText(fmt.Sprintf("S5|%s|empty-hrp", r.name), "empty-hrp", b32encode("", d5, bech32Const))
+			w.checkText(fmt.Sprintf("S5|%s|excess-group", r.name), "excess-padding-group", b32encode(hrp, append(append([]byte{}, d5...), 0), bech32Const))
+			w.checkText(fmt.Sprintf("S5|%s|empty-hrp", r.name), "empty-hrp", b32encode("", d5, bech32Const))
 		})
 	}
 
@@ -635,35 +679,35 @@ func main() {
 				raw := byronEncode(spec)
 				name := fmt.Sprintf("byron|type=%d|hash=%s|attr=%s", bt, hname[hi], at.name)
 				byrons = append(byrons, rep{name, raw, 0})
-				add(func() {
-					checkBytes("S6|"+name, raw)
-					textChecks("S6|"+name, raw)
+				add(func(w *W) {
+					w.checkBytes("S6|"+name, raw)
+					w.textChecks("S6|"+name, raw)
 					// invalid by construction
 					bad := spec
 					bad.crcXor = 1
-					checkBytes("S6|"+name+"|crc^1", byronEncode(bad))
+					w.checkBytes("S6|"+name+"|crc^1", byronEncode(bad))
 					bad = spec
 					bad.crcXor = 0x80000000
-					checkBytes("S6|"+name+"|crc^msb", byronEncode(bad))
+					w.checkBytes("S6|"+name+"|crc^msb", byronEncode(bad))
 					for _, hl := range []int{0, 27, 29, 32} {
 						bad = spec
 						bad.hash = append(append([]byte{}, h...), 1, 2, 3, 4)[:hl]
-						checkBytes(fmt.Sprintf("S6|%s|hashlen=%d", name, hl), byronEncode(bad))
+						w.checkBytes(fmt.Sprintf("S6|%s|hashlen=%d", name, hl), byronEncode(bad))
 					}
 					if at.magic != nil {
 						bad = spec
 						bad.magic = u(1 << 32)
-						checkBytes("S6|"+name+"|magic=2^32", byronEncode(bad))
+						w.checkBytes("S6|"+name+"|magic=2^32", byronEncode(bad))
 					}
 					// S8 trailing byte outside and inside the payload
 					p := byronPayload(spec)
 					for v := 0; v < 256; v++ {
-						checkBytes(fmt.Sprintf("S8|%s|outer-trailer", name), append(append([]byte{}, raw...), byte(v)))
+						w.checkBytes(fmt.Sprintf("S8|%s|outer-trailer", name), append(append([]byte{}, raw...), byte(v)))
 						p2 := append(append([]byte{}, p...), byte(v))
-						checkBytes(fmt.Sprintf("S8|%s|inner-trailer", name), byronFrame(p2, crc32ieee(p2)))
+						w.checkBytes(fmt.Sprintf("S8|%s|inner-trailer", name), byronFrame(p2, crc32ieee(p2)))
 					}
 					for k := 0; k < len(raw); k++ {
-						checkBytes(fmt.Sprintf("S8|%s|prefix=%d", name, k), raw[:k])
+						w.checkBytes(fmt.Sprintf("S8|%s|prefix=%d", name, k), raw[:k])
 					}
 				})
 			}
@@ -674,26 +718,27 @@ func main() {
 			continue // quick: every second Byron address (all attribute shapes still occur for each type)
 		}
 		r := r
-		add(func() { subst("S7|"+r.name, r.raw, 0, len(r.raw)) })
+		add(func(w *W) { subst(w, "S7|"+r.name, r.raw, 0, len(r.raw)) })
 		if !c.Thorough() && i%6 != 0 {
 			continue
 		}
-		add(func() {
+		add(func(w *W) {
 			s := b58encode(r.raw)
 			for pos := 0; pos < len(s); pos++ {
 				for _, ch := range b58chars + "0OIl" {
 					if byte(ch) == s[pos] {
 						continue
 					}
-					checkText(fmt.Sprintf("S9|%s|subst@%d", r.name, pos), "single-char-substitution", s[:pos]+string(ch)+s[pos+1:])
+					w.checkText(fmt.Sprintf("S9|%s|subst@%d", r.name, pos), "single-char-substitution", s[:pos]+string(ch)+s[pos+1:])
 				}
-				checkText(fmt.Sprintf("S9|%s|delete@%d", r.name, pos), "single-char-deletion", s[:pos]+s[pos+1:])
+				w.checkText(fmt.Sprintf("S9|%s|delete@%d", r.name, pos), "single-char-deletion", s[:pos]+s[pos+1:])
 			}
-			checkText(fmt.Sprintf("S9|%s|leading-1", r.name), "leading-one", "1"+s)
+			w.checkText(fmt.Sprintf("S9|%s|leading-1", r.name), "leading-one", "1"+s)
 		})
 	}
 
-	vlib.Parallel(len(work), func(i int) { work[i]() })
+	vlib.Parallel(len(work), func(i int) { work[i](&W{idx: i}) })
+	flushViolations()
 
 	c.Sample(map[string]any{"hashA": hx(hA), "hashB": hx(hB)})
 	ex := shelley(4, 1, hA, nil, &[3]uint64{128, 16383, 1<<64 - 1})
